@@ -8,6 +8,7 @@ package core
 // run on the real machine (the sequential model has no Import operation): search, labelled so.
 
 import (
+	"context"
 	"fmt"
 	"math/rand"
 	"strings"
@@ -134,4 +135,68 @@ func ImportDeterminism(seed int64, opts GenOpts, n, reps int) (fails []string, c
 		}
 	}
 	return fails, cases
+}
+
+// DefaultOrderScenario: machines that rely on the order New infers (no VerifyStates), made from one
+// schema whose names include variants that differ in letter case only; the inferred order, the
+// layout of Time(nil), the order of the active states and the order of handler calls must be the
+// same for every machine (the names come out of a map: only a total order hides its iteration order).
+func DefaultOrderScenario(seed int64, reps int) (fails []string, line string) {
+	r := rand.New(rand.NewSource(seed))
+	line = fmt.Sprintf("defaultorder seed=%d", seed)
+	pool := []string{"DBReady", "DbReady", "dbready", "Alpha", "alpha", "ALPHA", "Zed", "zed", "B", "b", "Init", "INIT"}
+	r.Shuffle(len(pool), func(i, j int) { pool[i], pool[j] = pool[j], pool[i] })
+	names := pool[:4+r.Intn(5)]
+	schema := am.Schema{}
+	for _, n := range names {
+		st := am.State{Auto: r.Intn(3) == 0, Multi: r.Intn(5) == 0}
+		if r.Intn(4) == 0 {
+			st.Remove = am.S{names[r.Intn(len(names))]}
+		}
+		schema[n] = st
+	}
+	var ops []string
+	for i, k := 0, 3+r.Intn(5); i < k; i++ {
+		op := "+"
+		if r.Intn(3) == 0 {
+			op = "-"
+		}
+		ops = append(ops, op+names[r.Intn(len(names))])
+	}
+	exec := func() string {
+		ctx, cancel := context.WithCancel(context.Background())
+		defer cancel()
+		m := am.New(ctx, schema, &am.Opts{Id: "deforder"})
+		defer m.Dispose()
+		var calls []string
+		fin := map[string]am.HandlerFinal{}
+		for _, n := range names {
+			nn := n
+			fin[nn+"State"] = func(e *am.Event) { calls = append(calls, nn+"State") }
+			fin[nn+"End"] = func(e *am.Event) { calls = append(calls, nn+"End") }
+		}
+		if _, err := m.HandlersBindMaps(nil, fin, am.BindOpts{Id: "rec"}); err != nil {
+			return "bind: " + err.Error()
+		}
+		out := "names=" + strings.Join(m.StateNames(), ",")
+		for _, o := range ops {
+			if o[0] == '+' {
+				m.Add1(o[1:], nil)
+			} else {
+				m.Remove1(o[1:], nil)
+			}
+			out += fmt.Sprintf(" | %s time=%v active=%v calls=%v", o, m.Time(nil), m.ActiveStates(nil), calls)
+			calls = nil
+		}
+		return out
+	}
+	first := exec()
+	ImportDetStats["default_order_scenarios"]++
+	for k := 1; k < reps; k++ {
+		if got := exec(); got != first {
+			return []string{fmt.Sprintf("nondeterministic default order: two machines made from the same schema (names %v, no VerifyStates) differ: %q vs %q", names, first, got)}, line
+		}
+		ImportDetStats["executions"]++
+	}
+	return nil, line
 }
